@@ -161,6 +161,9 @@ def listings(s, i):
     f3 = K.ensure_fake_s3()
     bucket = 'lst'
     n = rng.choice([0, 0, 1, 2, 3, 5, 8, 13, 21, 40])
+    big = i % 25 == 7
+    if big:
+        n = rng.choice([999, 1000, 1001, 2500])       # the service pages at 1000 keys
     suffix = rng.choice(['.mos.xml', '.mos.xml', '.xml', 'x'])
     prefixes = ['', 'a/', 'a/b', 'zz', 'a/b/']
     keys = []
@@ -171,7 +174,8 @@ def listings(s, i):
             stem = stem + suffix + 'mid'
         keys.append(stem + ending)
     rng.shuffle(keys)
-    judge_listing(s, keys, prefixes + [None], suffix, rng.randint(1, 7), rng.random() < 0.5)
+    judge_listing(s, keys, (prefixes[:2] if big else prefixes) + [None], suffix,
+                  1000 if big else rng.randint(1, 7), rng.random() < 0.5)
 
 
 def judge_listing(s, keys, prefixes, suffix, page_size, default_kw=False):
